@@ -277,3 +277,48 @@ Proof.
   - intros x y Hx Hy Hn. specialize (W x y Hx Hy Hn). unfold worse in W. simpl in W. lia.
   - intros x y Hx Hy Hn. specialize (W' x y Hx Hy Hn). unfold worse in W'. simpl in W'. lia.
 Qed.
+
+(* ---- all groups of a step ------------------------------------------------------ *)
+
+Section TopKStep.
+  Variable V : Type.
+  Variable lt : V -> V -> bool.
+  Variable isnan : V -> bool.
+
+  Notation entry := (entry V).
+  Notation offer := (offer V lt isnan).
+  Notation set_group := (set_group V).
+
+  Lemma set_group_length (hs : list (list entry)) g f : length (set_group hs g f) = length hs.
+  Proof. revert g. induction hs as [|h hs IH]; intros g; simpl; [reflexivity|]. destruct g; simpl; auto. Qed.
+
+  Lemma nth_set_group_same (hs : list (list entry)) g f : g < length hs -> nth g (set_group hs g f) [] = f (nth g hs []).
+  Proof. revert g. induction hs as [|h hs IH]; intros g Hg; simpl in *; [lia|]. destruct g; simpl; [reflexivity|]. apply IH. lia. Qed.
+
+  Lemma nth_set_group_other (hs : list (list entry)) g g' f : g <> g' -> nth g' (set_group hs g f) [] = nth g' hs [].
+  Proof.
+    revert g g'. induction hs as [|h hs IH]; intros g g' Hne; simpl; [reflexivity|].
+    destruct g, g'; simpl; try reflexivity; try lia. apply IH. lia.
+  Qed.
+
+  (* the heap of group g after a step: the offers of the group's own samples, in arrival order *)
+  Lemma group_heap k (inputs : list nat) g : forall (vec : list entry) (hs : list (list entry)),
+    g < length hs ->
+    nth g (fold_left (fun hs e => set_group hs (nth (fst e) inputs 0) (fun h => offer k h e)) vec hs) [] =
+    fold_left (offer k) (filter (fun e => Nat.eqb (nth (fst e) inputs 0) g) vec) (nth g hs []).
+  Proof.
+    induction vec as [|e vec IH]; intros hs Hg; simpl; [reflexivity|].
+    rewrite IH by (rewrite set_group_length; assumption).
+    destruct (Nat.eqb_spec (nth (fst e) inputs 0) g) as [E|NE]; simpl.
+    - rewrite E, nth_set_group_same by assumption. reflexivity.
+    - rewrite nth_set_group_other by assumption. reflexivity.
+  Qed.
+
+  Corollary topk_step_group k inputs ngroups vec g : 1 <= k -> g < ngroups ->
+    nth g (fold_left (fun hs e => set_group hs (nth (fst e) inputs 0) (fun h => offer k h e)) vec (repeat [] ngroups)) [] =
+    topk_group V lt isnan k (filter (fun e => Nat.eqb (nth (fst e) inputs 0) g) vec).
+  Proof.
+    intros Hk Hg. rewrite group_heap by (rewrite repeat_length; assumption).
+    rewrite nth_repeat. reflexivity.
+  Qed.
+End TopKStep.
